@@ -31,7 +31,10 @@ void setStage(const char* stage) {
 }
 }
 
+static volatile int g_crashPrinted = 0;
 static void crashLine(const char* what) {
+    if (g_crashPrinted) return;      // one CRASH line per process: the first one names the cause
+    g_crashPrinted = 1;
     char buf[512];
     const int n = std::snprintf(buf, sizeof buf, "\nCRASH %llu %d %s %s\n", g_curSeed, g_curSub, g_stageBuf, what);
     if (n > 0) { ssize_t w = write(1, buf, size_t(n)); (void)w; }
